@@ -58,7 +58,7 @@ func (f *c14File) render(v, y string, asWritten bool) string {
 	}
 	var sb strings.Builder
 	for i, l := range f.Lines {
-		sb.WriteString(c14Render(l, v, y))
+		sb.WriteString(c13Bytes(c14Render(l, v, y))) // tokens for bytes that are not UTF-8 (a case is stored as JSON)
 		if i < len(f.Lines)-1 || !f.NoFinal || asWritten {
 			sb.WriteString(nl)
 		}
@@ -94,7 +94,7 @@ func c14Gen(r *rand.Rand) *c14Case {
 	}
 	text := func() c14Line {
 		return c14Line{"text", core.Pick(r,
-			"#", "# some comment", "", "SecRule REQUEST_URI \"@rx foo\" \\", "    \"id:920100,\\", "    phase:1,\\", "    block,\\",
+			"#", "# some comment", "# written by Jos\u27e6E9\u27e7 in Latin-1", "# \u27e6FF\u27e7\u27e6C0\u27e7 bytes that are no UTF-8", "", "SecRule REQUEST_URI \"@rx foo\" \\", "    \"id:920100,\\", "    phase:1,\\", "    block,\\",
 			"# see OWASP_CRS/9.9.9 for details", "# this was added in ver.1.2.3 of the rules", "    msg:'version ver:4 is old',\\",
 			"# Copyright (c) 2006-2020 Trustwave and contributors. All rights reserved.", "SecAction \\", "    \"id:900990,\\",
 			"    tag:'OWASP_CRS',\\", "    severity:'CRITICAL'\"", "# setvar:tx.crs_setup_version is set below", "#SecComponentSignature \"OWASP_CRS/0.0.0\" is set elsewhere",
